@@ -1,3 +1,247 @@
 package main
 
-func selfTestImpl(id string, c *Ctx, r *Report, verif string) map[string]any { return nil }
+// Thorough tier: (1) extra build configuration (js/wasm entry point), (2) mutation self-test:
+// one source-level mutation per operator is applied to a scratch copy of /repo (outside /repo
+// and /verif), the copy is type-checked and the property's rules must report the expected
+// rule. A miss is a checker weakness: it is recorded as selftest_missed and makes the run
+// undecided; it is never printed as a VIOLATION of the property.
+
+import (
+	"fmt"
+	"os"
+	"os/exec"
+	"path/filepath"
+	"regexp"
+	"runtime/debug"
+	"strings"
+
+	"golang.org/x/tools/go/ssa"
+)
+
+type mutOp struct {
+	Prop   string
+	Rule   string // expected rule id among the violations
+	File   string
+	Find   string // regexp (first match is replaced)
+	Repl   string
+	Remark string
+}
+
+var mutOps = []mutOp{
+	{"C01", "C01.R2", "ast/ast.go", `token\.SLASH:\s+DIVIDE,`, "token.SLASH:      PRODUCT,", "precedence entry moved"},
+	{"C01", "C01.R3", "eval/eval.go", `node\.Token\.Type\(\) == token\.AND && left == object\.FALSE`, "node.Token.Type() == token.AND && left == object.TRUE", "short-circuit test inverted"},
+	{"C01", "C01.R4", "eval/eval.go", `(?s)if index\.Type\(\) == object\.ERROR \{\s+return index\s+\}\s+return s\.evalIndexAssigment`, "return s.evalIndexAssigment", "error check before index assignment dropped"},
+	{"C02", "C02.R2", "ast/ast.go", `needParen, oldExpressionPrecedence := out\.needParen\(ie\.Token\)`, "needParen, oldExpressionPrecedence := false, out.ExpressionPrecedence", "index printer stops consulting precedence"},
+	{"C02", "C02.R4", "lexer/lexer.go", `(?s)case 'n':\s+ch = '\\n'`, "case 'N':\n\t\t\t\tch = '\\n'", "escape case removed"},
+	{"C02", "C02.R5", "ast/ast.go", `(?s)s\.PrettyPrint\(ps\)\s+ps\.prev = s`, "ps.prev = s\n\t\ts.PrettyPrint(ps)", "previous-sibling recorded before printing"},
+	{"C03", "C03.R1", "ast/ast.go", `for i, key := range hl\.Order \{`, "i := -1\n\tfor key := range hl.Pairs {\n\t\ti++", "map literal printed in Go map order"},
+	{"C04", "C04.R3", "extensions/extension.go", `(?s)(rand\.Int64N\(n\)\}[^\n]*\n\t\t\},\n)\t\tDontCache: true,\n`, "$1", "DontCache removed from rand"},
+	{"C04", "C04.R1", "eval/eval.go", `(?s)if res\.Type\(\) == object\.ERROR \{\s+log\.Debugf\("Cache miss for %s %v, not caching error result"[^\n]*\n\s+return res\s+\}`, "", "errors become cacheable"},
+	{"C04", "C04.R2", "object/state.go", `orig\.getMiss\+\+ // creating a ref to a non constant is a miss\.`, "_ = orig", "miss increment dropped in makeRef"},
+	{"C05", "C05.R1", "eval/eval.go", `defer s\.env\.ReleaseRegister\(register\)`, "_ = register", "register release dropped"},
+	{"C05", "C05.R3", "eval/eval.go", `result = append\(result, object\.CopyRegister\(evaluated\)\)`, "result = append(result, evaluated)", "arguments no longer copied out of registers"},
+	{"C05", "C05.R2", "eval/eval.go", `if !env\.HasRegisters\(\) \{`, "if false {", "capacity test removed"},
+	{"C06", "C06.R1", "object/object.go", `(?s)res := &BigMap\{kv: make\(\[\]keyValuePair, 0, nl\)\}\s+res\.kv = append\(res\.kv, m\.kv\.\.\.\)`, "res := &BigMap{kv: m.kv}", "BigMap.Append reuses the left operand's storage"},
+	{"C07", "C07.R3", "eval/eval.go", `(?s)if rightVal == 0 \{\s+return s\.NewError\("division by zero"\)\s+\}`, "", "zero-divisor test removed"},
+	{"C07", "C07.R4", "eval/eval.go", `if idx < 0 \|\| idx >= int64\(len\(str\)\) \{`, "if idx >= int64(len(str)) {", "lower bound test removed"},
+	{"C07", "C07.R2", "eval/eval.go", `(?s)idxE, ok := node\.\(\*ast\.IndexExpression\)\s+if !ok \{\s+return s\.NewError\("delete not supported on " \+ node\.Value\(\)\.DebugString\(\)\)\s+\}\s+index := s\.Eval`, "idxE := node.(*ast.IndexExpression)\n\t\tindex := s.Eval", "comma-ok removed from an assertion under an ambiguous token test"},
+	{"C08", "C08.R1", "parser/parser.go", `(?s)log\.Debugf\("parseBlockStatement: EOL"\)\s+p\.continuationNeeded = true`, `log.Debugf("parseBlockStatement: EOL")`, "continuation mark dropped before return nil"},
+	{"C08", "C08.R2", "parser/parser.go", `for !p\.curTokenIs\(token\.RBRACE\) && !p\.curTokenIs\(token\.EOF\) \{`, "for !p.curTokenIs(token.RBRACE) {", "block loop no longer exits at EOF"},
+	{"C09", "C09.R1", "eval/eval.go", `(?s)if s\.Context != nil && s\.Context\.Err\(\) != nil \{\s+return s\.Error\(s\.Context\.Err\(\)\)\s+\}\s+switch node := node\.\(type\)`, "switch node := node.(type)", "deadline test removed from evalInternal"},
+	{"C09", "C09.R4", "eval/eval.go", `object\.MustBeOk\(\(len\(leftVal\) \+ len\(rightVal\)\) / object\.ObjectSize\)[^\n]*\n`, "", "memory guard removed from string +"},
+	{"C10", "C10.R1", "eval/eval_api.go", `s\.PipeVal = nil`, "_ = s", "Reset no longer clears the pipe value"},
+	{"C11", "C11.R3", "extensions/shell.go", `object\.MakeQuad\(stderr, object\.String\{Value: serr\.String\(\)\},\s+stdout, object\.String\{Value: sout\.String\(\)\}\)`, "object.MakeQuad(stdout, object.String{Value: sout.String()}, stderr, object.String{Value: serr.String()})", "MakeQuad keys out of order"},
+	{"C12", "C12.R1", "eval/eval.go", `object\.Cmp\(left, right\) >= 0\)`, "object.Cmp(left, right) > 0)", ">= implemented as >"},
+	{"C12", "C12.R2", "object/object.go", `return cmp\.Compare\(ei\.\(String\)\.Value, ej\.\(String\)\.Value\)`, "return cmp.Compare(ej.(String).Value, ei.(String).Value)", "comparator operands swapped"},
+	{"C13", "C13.R2", "ast/modify.go", `(?s)newNode\.Index, cont = Modify\(node\.Index, f\)\s+if !cont \{\s+return nil, false\s+\}`, "newNode.Index = node.Index", "Modify stops rewriting the index child"},
+	{"C14", "C14.R3", "object/state.go", `\n\tslices\.Sort\(keys\)\n\tn := 0`, "\n\tn := 0", "globals saved in map order"},
+	{"C14", "C14.R4", "object/state.go", `(?s)if isConstantAndExtraIdentifier\(k\) \{\s+// Don't save PI, E, etc\.\. that can't be changed\.\s+continue\s+\}`, "", "constants are saved"},
+	{"C15", "C15.R2", "parser/parser.go", `(?s)if p\.peekTokenIs\(token\.EOL\) \{\s+p\.continuationNeeded = true\s+return false\s+\}`, "", "expectPeek reports an error at end of line"},
+	{"C16", "C16.R1", "lexer/lexer.go", `return string\(l\.input\[pos:l\.pos\]\)\n\}\n\nfunc notEOL`, "return string(l.input[pos+1 : l.pos])\n}\n\nfunc notEOL", "identifier text loses its first byte"},
+	{"C16", "C16.R2", "lexer/lexer.go", `(?s)if nextChar == ch \{ // << and >>\s+l\.pos\+\+`, "if nextChar == ch { // << and >>", "position not advanced for a two-byte token"},
+	{"C17", "C17.R2", "extensions/extension.go", `return "", fmt\.Errorf\("invalid character in filename %q: %c", file, r\)`, "break", "sanitiser loop breaks instead of rejecting"},
+	{"C17", "C17.R1", "extensions/extension.go", `f, err := os\.Open\(file\)`, "f, err := os.Open(args[0].(object.String).Value)", "load opens the unsanitised name"},
+	{"C18", "C18.R1", "repl/repl.go", `(?s)n, err := s\.SaveGlobals\(f\)\s+if err != nil \{\s+return err\s+\}`, "n, _ := s.SaveGlobals(f)", "rename no longer guarded by the write's success"},
+	{"C19", "C19.R4", "eval/eval.go", ` && !object\.Constant\(name\) \{`, " {", "constant loop variables become registers again"},
+	{"C19", "C19.R1", "eval/eval.go", `oerr := s\.env\.Set\(name\.Literal\(\), fn\)`, "oerr := s.env.SetNoChecks(name.Literal(), fn, false)", "function definition bypasses the constant check"},
+	{"C20", "C20.R3", "trie/trie.go", `(?s)if char > t\.max \{\s+t\.max = char\s+\}`, "", "max bound not maintained"},
+	{"C20", "C20.R1", "trie/trie.go", `(?s)default:\s+// Existing interior node[^\n]*\n\s+if i == l-1 \{\s+t\.children\[char\]\.valid = true\s+\}`, "default:", "interior node not marked"},
+}
+
+func copyTree(src, dst string) error {
+	cmd := exec.Command("rsync", "-a", "--exclude", ".git", src+"/", dst+"/")
+	if out, err := cmd.CombinedOutput(); err != nil {
+		return fmt.Errorf("rsync: %v: %s", err, out)
+	}
+	return nil
+}
+
+func dropCaches(c *Ctx) {
+	delete(extregCache, c)
+	delete(tokRelCache, c)
+	retLocalCache = map[*ssa.Function]map[int]bool{}
+}
+
+func selfTestImpl(id string, c *Ctx, r *Report, verif string) map[string]any {
+	res := map[string]any{}
+	// (1) extra build configuration
+	if id == "C09" || id == "C17" {
+		w := Load(LoadConfig{Repo: c.Repo, Env: []string{"GOOS=js", "GOARCH=wasm"}, Patterns: []string{"./wasm"}, MinPkgs: 9})
+		checkWasmEntry(id, w, r)
+		res["wasm_config"] = fmt.Sprintf("js/wasm entry point analysed (%d module packages)", len(w.Mod))
+		dropCaches(w)
+	}
+	// (2) mutation self-test
+	var ops []mutOp
+	for _, op := range mutOps {
+		if op.Prop == id {
+			ops = append(ops, op)
+		}
+	}
+	var caught, missed, skipped []string
+	for _, op := range ops {
+		tmp, err := os.MkdirTemp("", "grolcheck-selftest-")
+		if err != nil {
+			skipped = append(skipped, op.Remark+": "+err.Error())
+			continue
+		}
+		func() {
+			defer os.RemoveAll(tmp)
+			scratch := filepath.Join(tmp, "repo")
+			if err := copyTree(c.Repo, scratch); err != nil {
+				skipped = append(skipped, op.Remark+": "+err.Error())
+				return
+			}
+			path := filepath.Join(scratch, op.File)
+			b, err := os.ReadFile(path)
+			if err != nil {
+				skipped = append(skipped, op.Remark+": "+err.Error())
+				return
+			}
+			re := regexp.MustCompile(op.Find)
+			loc := re.FindSubmatchIndex(b)
+			if loc == nil {
+				skipped = append(skipped, op.Remark+": target construct not found (operator out of date)")
+				return
+			}
+			var dst []byte
+			dst = re.Expand(dst, []byte(op.Repl), b, loc)
+			nb := append(append(append([]byte{}, b[:loc[0]]...), dst...), b[loc[1]:]...)
+			if err := os.WriteFile(path, nb, 0o644); err != nil {
+				skipped = append(skipped, op.Remark+": "+err.Error())
+				return
+			}
+			var mc *Ctx
+			failed := false
+			func() {
+				defer func() {
+					if e := recover(); e != nil {
+						failed = true
+						skipped = append(skipped, fmt.Sprintf("%s: variant does not type-check or analyse (%v)", op.Remark, e))
+					}
+				}()
+				mc = Load(LoadConfig{Repo: scratch, MinPkgs: 10})
+				mc.Tier = "quick"
+				sub := NewReport(id, "quick", mc)
+				props[id].run(mc, sub)
+				hit := false
+				kf := loadKnown(knownPath)
+				for _, o := range sub.Obls {
+					if o.status == FAIL && o.Rule == op.Rule && kf.match(id, o.Key()) == nil {
+						hit = true
+					}
+				}
+				if hit {
+					caught = append(caught, op.Rule+": "+op.Remark)
+				} else {
+					missed = append(missed, op.Rule+": "+op.Remark)
+				}
+			}()
+			_ = failed
+			if mc != nil {
+				dropCaches(mc)
+			}
+		}()
+		debug.FreeOSMemory()
+	}
+	res["operators"] = len(ops)
+	res["caught"] = caught
+	res["selftest_missed"] = missed
+	res["skipped"] = skipped
+	if len(missed) > 0 {
+		r.Undecided("mutation self-test: %d operator(s) not detected: %s", len(missed), strings.Join(missed, "; "))
+	}
+	return res
+}
+
+// checkWasmEntry: the restricted deployment (wasm) initialises extensions with the restricted
+// defaults and passes a depth and a duration limit.
+func checkWasmEntry(id string, w *Ctx, r *Report) {
+	mainFn := w.SSAFn(w.Fn("wasm", "main"))
+	jsEval := w.SSAFn(w.Fn("wasm", "jsEval"))
+	if id == "C17" {
+		initFn := w.Fn("extensions", "Init")
+		ok := false
+		for _, call := range callsIn(mainFn, initFn) {
+			if isNilConst(call.Common().Args[0]) {
+				ok = true
+			}
+		}
+		r.Rule("C17.R4", r.RuleDoc["C17.R4"])
+		r.Check(ok, "C17.R4", ssaFuncName(mainFn), "wasm entry point calls extensions.Init(nil) (restricted defaults)", w.Pos(mainFn.Pos()), "the wasm deployment does not initialise extensions with the restricted default configuration")
+	}
+	if id == "C09" {
+		optsT := w.TypeNamed("repl", "Options")
+		set := map[string]bool{}
+		eachInstr(jsEval, func(in ssa.Instruction) {
+			st, ok := in.(*ssa.Store)
+			if !ok {
+				return
+			}
+			for _, f := range []string{"MaxDepth", "MaxDuration"} {
+				if isFieldAddrOf(st.Addr, optsT, f) {
+					if ld, ok := st.Val.(*ssa.UnOp); ok {
+						if g, ok := ld.X.(*ssa.Global); ok && nonZeroInit(w, g) {
+							set[f] = true
+						}
+					}
+					if k, ok := constInt(st.Val); ok && k > 0 {
+						set[f] = true
+					}
+				}
+			}
+		})
+		r.Check(set["MaxDepth"] && set["MaxDuration"], "C09.R5", ssaFuncName(jsEval), "wasm entry point sets a depth limit and a duration limit", w.Pos(jsEval.Pos()), "the wasm deployment evaluates without a depth or a duration limit")
+		memLimit := false
+		eachInstr(mainFn, func(in ssa.Instruction) {
+			if call, ok := in.(*ssa.Call); ok && stdName(call) == "runtime/debug.SetMemoryLimit" {
+				memLimit = true
+			}
+		})
+		r.Check(memLimit, "C09.R5", ssaFuncName(mainFn), "wasm entry point sets a memory limit", w.Pos(mainFn.Pos()), "the wasm deployment sets no memory limit: the memory guard has nothing to compare against")
+	}
+}
+
+// nonZeroInit: the package-level variable is initialised to a non-zero constant and never stored elsewhere.
+func nonZeroInit(c *Ctx, g *ssa.Global) bool {
+	if g.Pkg == nil {
+		return false
+	}
+	initFn := g.Pkg.Func("init")
+	ok := false
+	if initFn != nil {
+		eachInstr(initFn, func(in ssa.Instruction) {
+			if st, isSt := in.(*ssa.Store); isSt && st.Addr == ssa.Value(g) {
+				if k, isK := constInt(st.Val); isK && k > 0 {
+					ok = true
+				}
+				if cv, isCv := st.Val.(*ssa.Convert); isCv {
+					if k, isK := constInt(cv.X); isK && k > 0 {
+						ok = true
+					}
+				}
+			}
+		})
+	}
+	return ok
+}
